@@ -49,9 +49,11 @@ ASSUMPTIONS = [
     "plate-fixed joint coordinates b_i, t_i are the fixture model's (read through public getters at construction and "
     "re-read right after every spinCustom, when they must still be a congruent copy: same pairwise distances, radius and "
     "plate-frame z, 1e-9 relative); everything else is transformed with vf.oracle",
-    "all comparisons are made on the 4x4 matrices the getters hand out (gTM()); tolerance 1e-9*max(1, geometry scale, "
-    "|plate positions|), 5e-6*scale instead when a plate rotation angle (bottom, top or relative) lies in the open "
-    "NearZero band (1e-9, 2e-6) where the library's exponential drops the rotation",
+    "all comparisons are made on the 4x4 matrices the getters hand out (gTM()); joints and lengths to 1e-9*max(1, "
+    "geometry scale, |plate positions|), 5e-6*scale instead when a plate rotation angle (bottom, top or relative) lies "
+    "in the open NearZero band (1e-9, 2e-6) where the library's exponential drops the rotation; the relative "
+    "transform always to 5e-6*scale (the library computes it through the logarithm and exponential of both plate "
+    "poses), and not at all while a plate's rotation is within 1e-4 of a half turn (open finding C01-near-pi-log; counted)",
     "a flag counts as a verdict only when the call validated (protect=False); IK/FK(protect=True) return True "
     "unconditionally by documented design ('bypass any safeties') and are not judged",
     "constraint definitions are the library's own: leg lengths inside [leg_ext_min, leg_ext_max]; z of the top origin "
@@ -73,6 +75,7 @@ REL = 1e-9
 LOOSE = 5e-6
 BAND_LO, BAND_HI = 1e-9, 2e-6
 MARGIN = 1e-4
+NEAR_PI = 1e-4
 GUARD_S = 60.0
 MAX_SOLVER_DEPTH = 120
 
@@ -275,13 +278,18 @@ def check_coherence(model, ob, opname, path):
         i = int(d.argmax())
         _fail("lengths", opname, path, "getLens()[%d]=%.12g but the published joints are %.12g apart (|diff| %.3g > tol "
               "%.3g)" % (i, L[i], dist[i], d[i], tol))
+    # the library derives the relative transform through the plates' axis-angle vectors (globalToLocal takes the
+    # matrix logarithm of both poses and exponentiates again): DESIGN's "5e-6 where a log/exp is involved"; and within
+    # NEAR_PI of a half turn that logarithm is the open finding C01-near-pi-log (error ~2.6e-16/(pi-angle)^2): not compared
     rel = O.inv(ob.Tb) @ ob.Tt
+    if any(math.pi - O.angle(T[:3, :3]) < NEAR_PI for T in (ob.Tb, ob.Tt)):
+        return "near-pi"
     d = np.abs(ob.rel - rel).max()
-    if d > tol:
+    if d > LOOSE * scale:
         _fail("rel", opname, path, "getCurrentLocalTransform() differs from getBottomT()^-1 getTopT() by %.3g (tol %.3g); "
-              "published relative position %s, actual %s" % (d, tol, np.array2string(ob.rel[:3, 3], precision=6),
+              "published relative position %s, actual %s" % (d, LOOSE * scale, np.array2string(ob.rel[:3, 3], precision=6),
                                                             np.array2string(rel[:3, 3], precision=6)))
-    return loose
+    return "band" if loose else None
 
 
 def check_verdict(model, ob, switches, opname, path):
@@ -482,8 +490,11 @@ def run_history(case, ctx, collect=None):
         if op["op"] in ("ik", "fk"):
             labels.add("op %s %s" % (op["op"], op["kind"]))
         ob = Obs(sp)
-        if check_coherence(model, ob, name, path):
+        how = check_coherence(model, ob, name, path)
+        if how == "band":
             labels.add("NearZero band tolerance")
+        elif how == "near-pi":
+            labels.add("plate within 1e-4 of a half turn: relative transform not compared (C01-near-pi-log)")
         if verdict is True:
             verdicts += 1
             check_verdict(model, ob, sw, name, path)
